@@ -16,7 +16,8 @@ RULE = ("random regex ASTs (depth <=4; symbols of 1-3 characters, escaped operat
         "through the CFG membership oracle, union/concatenate/kleene_star and the str() round trip through the "
         "equivalence oracle. Non-trivial: AST with >=2 operators of >=2 kinds.")
 LEVEL = "proof"
-THEOREMS = ["Pfl.Rx.regexAccepts_iff",
+THEOREMS = ["Pfl.RegexReader.parse_grammar",
+            "Pfl.Rx.regexAccepts_iff",
             "Pfl.Rx.toCFG_lang",
             "Pfl.Rx.toCFG_wf",
             "Pfl.RegexReader.parse_repr",
